@@ -362,7 +362,7 @@ func execC10(c Case) (res evid.Result) {
 				return fail("msg %d (%s, %d bytes, out-token %d bytes, mark %s, inface %v): frame %d of %d is %d bytes > MTU %d",
 					i, m.Kind, m.Size, len(m.OutTok), markStr(m.Cong), m.InFace != nil && c.InFaceInd, j, len(frames), len(f), c.MTU)
 			}
-			lp, err := lpwire.Parse(f)
+			lp, err := lpwire.ParseFrame(f) // an LpPacket, or a bare Interest/Data (equivalent for a header-less packet)
 			if err != nil {
 				return fail("msg %d: frame %d is not a well-formed LpPacket: %v", i, j, err)
 			}
